@@ -171,8 +171,9 @@ def r04_2(ctx, fx):
         if csw:
             for var, want in (("Identity", "identity"), ("UnsignedVarint", "varint")):
                 arm = arm_nodes(fn, csw[0], var)
-                sites = [c.node for c in pushes if c.node in arm and re.match(r"^_2$", fn.origin(c.args[1]))]
-                ctx.anchor("R04.2", "start_send: %s arm queues the item" % var, len(sites), 1, cfg=fx.cfg)
+                # everything queued for this message (length prefix and payload): nothing of a refused message may be queued
+                sites = [c.node for c in pushes if c.node in arm]
+                ctx.anchor("R04.2", "start_send: %s arm queues the item" % var, len([c for c in pushes if c.node in arm and re.match(r"^_2$", fn.origin(c.args[1]))]), 1, cfg=fx.cfg)
                 size_guard(ctx, fx, fn, "R04.2", "start_send", sites, r"^_2$", want)
             # the varint prefix encodes item.len()
             enc = fn.calls(r"unsigned_varint::encode::usize$")
